@@ -1,26 +1,729 @@
-//! C20: not implemented yet.
+//! C20: Forc.lock round-trips the resolved package graph.
+//!
+//! Every case is a package graph described by a harness-side model (`MGraph`). The model is turned
+//! into a real `forc_pkg::Graph` WITHOUT going through the `FromStr` implementations under test
+//! (struct literals for git/path, serde for member/ipfs/registry), then pushed through the real
+//! write path (`Lock::from_graph` + `toml::ser::to_string_pretty`, what forc does when it writes
+//! `Forc.lock`), written to a file, and read back with the real `Lock::from_path` + `to_graph`.
+//! Oracle: the graph read back has the same node multiset (name, source) and the same edge
+//! multiset (from, to, dependency name, kind, salt) as the graph written.
+//!
+//! Two explored sets:
+//!  * seed-driven random graphs from an input class on which the unchanged tree is clean;
+//!  * a FIXED enumerated list of named edge-case graphs (`fixed_cases`) that forc accepts but whose
+//!    round trip is doubtful; each failure there has its own signature `fixed:<name>:<kind>`.
 use crate::common::*;
 use crate::{Plan, Prop};
+use forc_pkg::{source, DepKind, Edge, Graph, Lock, Pinned};
+use rand::rngs::StdRng;
+use rand::Rng;
+use serde::{Deserialize, Serialize};
+use serde_json::{json, Value};
+use std::path::{Path, PathBuf};
+use std::str::FromStr;
 
 pub static META: PropertyMeta = PropertyMeta {
     id: "C20",
     level: "exploration",
-    rule: "not implemented",
-    assumptions: &[],
-    floor_evaluations: 1,
-    floor_nontrivial: 2,
-    required_counters: &[],
+    rule: "random resolved-graph models (1..12 packages, DAG, at most one edge per ordered pair, unique (name, source) pairs; sources member/path/git/ipfs/registry; validated package and dependency names; git refs valid for git and free of '#', '(' and ')'), plus a fixed list of named edge-case graphs; each graph is written with Lock::from_graph + toml::ser::to_string_pretty and read back with Lock::from_path + to_graph; non-trivial = at least 2 packages and 1 edge; distinct = hash of the model",
+    assumptions: &[
+        "petgraph's StableGraph container and the derived PartialEq of forc_pkg::source::Pinned are trusted",
+        "serde Deserialize of the Pinned types (used to construct member/ipfs/registry sources) is independent of the FromStr code under test",
+        "a resolved graph has at most one edge per ordered node pair (fetch_deps uses update_edge), is acyclic, and the registry source name equals the package name",
+        "Reference::Rev is generated in its canonical form Rev(commit_hash): the lock format does not store the user's rev string",
+    ],
+    floor_evaluations: 2000,
+    floor_nontrivial: 1000,
+    required_counters: &[
+        "roundtrip_ok",
+        "src_member",
+        "src_path",
+        "src_git",
+        "src_ipfs",
+        "src_registry",
+        "graphs_disambiguated",
+        "edges_renamed",
+        "edges_contract_salted",
+        "edges_contract_zero_salt",
+        "fixed_cases_run",
+    ],
 };
 
 pub static PROP: Prop = Prop {
     meta: &META,
-    plan: |_t| Plan { nshards: 1, budget_s: 1.0, mem_gib: 0 },
-    shard: |_ctx| {
-        let mut r = ShardResult::default();
-        r.harness_fault = Some("not implemented".into());
-        r
-    },
-    replay: crate::no_replay,
+    plan: |t| Plan { nshards: t.pick(8, 16), budget_s: t.pick(15.0, 200.0), mem_gib: 4 },
+    shard,
+    replay,
     extra: crate::no_extra,
     subcommand: crate::no_subcommand,
 };
+
+// ------------------------------------------------------------------------------------------
+// Model
+
+#[derive(Clone, Debug, PartialEq, Eq, Serialize, Deserialize)]
+pub enum MRef {
+    Branch(String),
+    Tag(String),
+    /// canonical: Rev(commit_hash)
+    Rev,
+    Default,
+}
+
+#[derive(Clone, Debug, PartialEq, Eq, Serialize, Deserialize)]
+pub enum MSrc {
+    Member,
+    Path { root: u64 },
+    Git { url: String, reference: MRef, commit: String },
+    Ipfs { cid: String },
+    Reg { version: String, cid: String, namespace: Option<String> },
+}
+
+impl MSrc {
+    pub fn kind(&self) -> &'static str {
+        match self {
+            MSrc::Member => "member",
+            MSrc::Path { .. } => "path",
+            MSrc::Git { .. } => "git",
+            MSrc::Ipfs { .. } => "ipfs",
+            MSrc::Reg { .. } => "registry",
+        }
+    }
+}
+
+#[derive(Clone, Debug, PartialEq, Eq, Serialize, Deserialize)]
+pub struct MPkg {
+    pub name: String,
+    pub src: MSrc,
+}
+
+#[derive(Clone, Debug, PartialEq, Eq, Serialize, Deserialize)]
+pub struct MEdge {
+    pub from: usize,
+    pub to: usize,
+    pub name: String,
+    /// None = library dependency; Some(hex of 32 bytes) = contract dependency with that salt
+    pub salt: Option<String>,
+}
+
+#[derive(Clone, Debug, PartialEq, Eq, Serialize, Deserialize)]
+pub struct MGraph {
+    pub pkgs: Vec<MPkg>,
+    pub edges: Vec<MEdge>,
+}
+
+// ------------------------------------------------------------------------------------------
+// Model -> real forc types (not through the FromStr impls under test)
+
+pub fn build_source(name: &str, s: &MSrc) -> Result<source::Pinned, String> {
+    match s {
+        MSrc::Member => serde_json::from_value(json!({"Member": null})).map_err(|e| format!("member: {e}")),
+        MSrc::Path { root } => {
+            let path_root: forc_pkg::PinnedId = serde_json::from_value(json!(root)).map_err(|e| format!("pinned id: {e}"))?;
+            Ok(source::Pinned::Path(source::path::Pinned { path_root }))
+        }
+        MSrc::Git { url, reference, commit } => {
+            let repo = source::git::Url::from_str(url).map_err(|e| format!("git url {url:?}: {e}"))?;
+            let reference = match reference {
+                MRef::Branch(b) => source::git::Reference::Branch(b.clone()),
+                MRef::Tag(t) => source::git::Reference::Tag(t.clone()),
+                MRef::Rev => source::git::Reference::Rev(commit.clone()),
+                MRef::Default => source::git::Reference::DefaultBranch,
+            };
+            Ok(source::Pinned::Git(source::git::Pinned {
+                source: source::git::Source { repo, reference },
+                commit_hash: commit.clone(),
+            }))
+        }
+        MSrc::Ipfs { cid } => serde_json::from_value(json!({"Ipfs": cid})).map_err(|e| format!("ipfs cid {cid:?}: {e}")),
+        MSrc::Reg { version, cid, namespace } => {
+            let ns = match namespace {
+                None => json!("Flat"),
+                Some(d) => json!({"Domain": d}),
+            };
+            serde_json::from_value(json!({"Registry": {"source": {"name": name, "version": version, "namespace": ns}, "cid": cid}}))
+                .map_err(|e| format!("registry {name} {version} {cid}: {e}"))
+        }
+    }
+}
+
+fn salt_of(hex64: &str) -> Result<fuel_tx::Salt, String> {
+    let mut b = [0u8; 32];
+    hex::decode_to_slice(hex64, &mut b).map_err(|e| format!("salt {hex64:?}: {e}"))?;
+    Ok(fuel_tx::Salt::new(b))
+}
+
+pub fn build_graph(m: &MGraph) -> Result<(Graph, Vec<source::Pinned>), String> {
+    let mut graph = Graph::new();
+    let mut ix = vec![];
+    let mut sources = vec![];
+    for p in &m.pkgs {
+        let source = build_source(&p.name, &p.src)?;
+        sources.push(source.clone());
+        ix.push(graph.add_node(Pinned { name: p.name.clone(), source }));
+    }
+    for e in &m.edges {
+        if e.from >= ix.len() || e.to >= ix.len() {
+            return Err("edge endpoint out of range".into());
+        }
+        let kind = match &e.salt {
+            None => DepKind::Library,
+            Some(h) => DepKind::Contract { salt: salt_of(h)? },
+        };
+        graph.add_edge(ix[e.from], ix[e.to], Edge::new(e.name.clone(), kind));
+    }
+    Ok((graph, sources))
+}
+
+/// The text forc writes to Forc.lock for this graph (same calls as `BuildPlan::from_lock_and_manifests`
+/// and `forc update`).
+pub fn lock_text(graph: &Graph) -> Result<String, String> {
+    let lock = Lock::from_graph(graph);
+    toml::ser::to_string_pretty(&lock).map_err(|e| format!("failed to serialize lock file: {e}"))
+}
+
+// ------------------------------------------------------------------------------------------
+// Generator
+
+const NAME_POOL: &[&str] = &[
+    "std", "core", "my_lib", "my-lib", "token_abi", "foo", "Foo", "fOO", "bar", "bar-baz_qux", "a-", "a_", "ab", "a1", "x--y", "x__y", "member", "root", "path", "git", "ipfs", "registry", "rev", "branch", "tag",
+    "default-branch", "from-root", "from-root-0", "git-https", "registry-std", "v1", "lib-0-1-0", "Z9", "contract_a", "contract-b", "script_main", "predicate1", "sway_libs", "standards",
+    "a_very_long_package_name_that_goes_on_and_on_and_on_0123456789_abcdefghij",
+];
+
+const DEP_NAME_POOL: &[&str] = &["a", "b", "_", "_x", "std2", "std-alt", "core_v2", "dep", "d-e-p", "X", "alias_1", "member", "path", "git", "the_dependency_alias_with_a_long_name_0123456789"];
+
+const URL_POOL: &[&str] = &[
+    "https://github.com/FuelLabs/sway",
+    "https://github.com/FuelLabs/sway.git",
+    "https://github.com/fuellabs/sway-libs",
+    "https://github.com/FuelLabs/sway-standards/",
+    "http://example.com/repo",
+    "https://example.com:8443/group/sub/repo.git",
+    "https://user@example.com/repo",
+    "https://gitlab.example.org/a/b/c/d",
+    "ssh://git@github.com/org/repo.git",
+    "ssh://git@example.com:2222/org/repo",
+    "git://example.org/repo.git",
+    "https://example.com/~user/repo",
+    "https://example.com/a-b_c.d/repo+x",
+    "https://192.168.0.1/r.git",
+    "https://[::1]/r.git",
+    "file:///home/user/repos/lib",
+    "https://EXAMPLE.com/Mixed/Case",
+    "https://example.com/repo%20name",
+];
+
+const BRANCH_POOL: &[&str] = &[
+    "master", "main", "develop", "release/v1.0", "feature/foo-bar", "user/fix_123", "v0.66.1", "a=b", "tag=v1", "branch=x", "rev", "default-branch", "a+b", "a!b", "a%b", "a,b", "a;b", "a&b", "a'b", "a\"b",
+    "a@b", "a$b", "a|b", "a<b>", "a{b}", "日本語", "fix-é", "UPPER", "0", "-", "a.b.c", "deadbeef", "0123456789abcdef0123456789abcdef01234567", "refs/heads/x", "a/b/c/d/e",
+];
+
+const VERSION_POOL: &[&str] = &[
+    "0.1.0", "1.0.0", "0.0.0", "0.66.1", "10.20.30", "1.2.3-alpha", "1.2.3-alpha.1", "1.0.0-rc.1+build.123", "1.0.0+20130313144700", "1.0.0-0.3.7", "1.0.0-x.7.z.92", "1.0.0-x-y-z.--", "1.0.0-beta+exp.sha.5114f85",
+    "1.0.0+0.build.1-rc.10000aaa-kk-0.1", "2.0.0-rc.1", "999999999.999999999.999999999", "18446744073709551615.0.0",
+];
+
+const NAMESPACE_POOL: &[&str] = &["fuellabs", "com/fuel", "com.example", "my-org", "my_org", "a/b/c", "x", "ORG", "org.example/sub"];
+
+fn hex_string(rng: &mut StdRng, n_bytes: usize) -> String {
+    let mut b = vec![0u8; n_bytes];
+    rng.fill(&mut b[..]);
+    hex::encode(b)
+}
+
+pub fn gen_commit(rng: &mut StdRng) -> String {
+    match rng.gen_range(0..10) {
+        0 => "0000000000000000000000000000000000000000".to_string(),
+        1 => "ffffffffffffffffffffffffffffffffffffffff".to_string(),
+        _ => hex_string(rng, 20),
+    }
+}
+
+/// Returns (cid string, is_v1)
+pub fn gen_cid(rng: &mut StdRng, allow_v1: bool) -> (String, bool) {
+    use cid::multihash::Multihash;
+    let mut digest = [0u8; 64];
+    rng.fill(&mut digest[..]);
+    if !allow_v1 || rng.gen_bool(0.5) {
+        let mh = Multihash::<64>::wrap(0x12, &digest[..32]).expect("mh");
+        (cid::Cid::new_v0(mh).expect("cidv0").to_string(), false)
+    } else {
+        let (code, len) = *choose(rng, &[(0x12u64, 32usize), (0x13, 64), (0xb220, 32), (0x00, 8), (0x1b, 32), (0x12, 32)]);
+        let mh = Multihash::<64>::wrap(code, &digest[..len]).expect("mh");
+        let codec = *choose(rng, &[0x55u64, 0x70, 0x71, 0x0129]);
+        let c = cid::Cid::new_v1(codec, mh);
+        let s = match rng.gen_range(0..4) {
+            // non-canonical multibase spellings of the same CID: forc parses them into the same Cid
+            0 => c.to_string_of_base(cid::multibase::Base::Base58Btc).expect("b58"),
+            1 => c.to_string_of_base(cid::multibase::Base::Base16Lower).expect("b16"),
+            _ => c.to_string(),
+        };
+        (s, true)
+    }
+}
+
+fn gen_salt(rng: &mut StdRng) -> String {
+    match rng.gen_range(0..8) {
+        0 => format!("{:064x}", 1),
+        1 => "ff".repeat(32),
+        2 => format!("{}{}", "00".repeat(31), "80"),
+        3 => format!("80{}", "00".repeat(31)),
+        _ => hex_string(rng, 32),
+    }
+}
+
+fn valid_pkg_name(n: &str) -> bool {
+    forc_util::validate_project_name(n).is_ok()
+}
+
+fn valid_dep_name(n: &str) -> bool {
+    forc_util::validate_name(n, "dependency name").is_ok()
+}
+
+fn gen_ident(rng: &mut StdRng, first: &[u8], rest: &[u8], min: usize, max: usize) -> String {
+    let len = rng.gen_range(min..=max);
+    let mut s = String::new();
+    s.push(*choose(rng, first) as char);
+    while s.len() < len {
+        s.push(*choose(rng, rest) as char);
+    }
+    s
+}
+
+fn gen_pkg_name(rng: &mut StdRng) -> String {
+    for _ in 0..50 {
+        let n = if rng.gen_bool(0.6) {
+            choose(rng, NAME_POOL).to_string()
+        } else {
+            gen_ident(rng, b"abcxyzABZ", b"abcxyzABZ019-_", 2, 14)
+        };
+        if valid_pkg_name(&n) {
+            return n;
+        }
+    }
+    "fallback_pkg".to_string()
+}
+
+fn gen_dep_name(rng: &mut StdRng) -> String {
+    for _ in 0..50 {
+        let n = match rng.gen_range(0..10) {
+            0..=3 => choose(rng, DEP_NAME_POOL).to_string(),
+            4..=5 => choose(rng, NAME_POOL).to_string(),
+            _ => gen_ident(rng, b"abcxyzABZ_", b"abcxyzABZ019-_", 1, 12),
+        };
+        if valid_dep_name(&n) {
+            return n;
+        }
+    }
+    "fallback_dep".to_string()
+}
+
+fn gen_ref_string(rng: &mut StdRng) -> String {
+    if rng.gen_bool(0.7) {
+        choose(rng, BRANCH_POOL).to_string()
+    } else {
+        // characters git's check-ref-format allows in a ref component, minus '#', '(' and ')' (fixed cases)
+        let alphabet: Vec<char> = "abcXYZ019-_./=+!%,;&'@$|<>{}é日".chars().collect();
+        let len = rng.gen_range(1..=16);
+        let mut s = String::new();
+        for _ in 0..len {
+            s.push(*choose(rng, &alphabet));
+        }
+        // keep it a name git would accept: no leading '-', '.', '/', no "..", "//", "@{", trailing '.', '/', ".lock"
+        let bad = s.starts_with(['-', '.', '/']) || s.ends_with(['.', '/']) || s.contains("..") || s.contains("//") || s.contains("@{") || s.contains("/.") || s.ends_with(".lock") || s == "@";
+        if bad {
+            "main".to_string()
+        } else {
+            s
+        }
+    }
+}
+
+pub fn gen_source(rng: &mut StdRng, kind: u32) -> MSrc {
+    match kind {
+        0 => MSrc::Member,
+        1 => MSrc::Path {
+            root: match rng.gen_range(0..8) {
+                0 => 0,
+                1 => u64::MAX,
+                2 => rng.gen_range(0..256),
+                _ => rng.gen(),
+            },
+        },
+        2 => {
+            let url = choose(rng, URL_POOL).to_string();
+            let reference = match rng.gen_range(0..4) {
+                0 => MRef::Branch(gen_ref_string(rng)),
+                1 => MRef::Tag(gen_ref_string(rng)),
+                2 => MRef::Rev,
+                _ => MRef::Default,
+            };
+            MSrc::Git { url, reference, commit: gen_commit(rng) }
+        }
+        3 => MSrc::Ipfs { cid: gen_cid(rng, true).0 },
+        _ => MSrc::Reg {
+            version: choose(rng, VERSION_POOL).to_string(),
+            // forc only re-reads registry CIDs of the v0 form; v1 is a fixed case
+            cid: gen_cid(rng, false).0,
+            namespace: if rng.gen_bool(0.5) { None } else { Some(choose(rng, NAMESPACE_POOL).to_string()) },
+        },
+    }
+}
+
+pub fn gen_graph(rng: &mut StdRng) -> MGraph {
+    let n = match rng.gen_range(0..10) {
+        0 => 1,
+        1..=4 => rng.gen_range(2..=5),
+        _ => rng.gen_range(4..=12),
+    };
+    // a small name pool forces same-named packages from different sources
+    let pool_size = if rng.gen_bool(0.45) { rng.gen_range(1..=3) } else { n + 2 };
+    let mut names: Vec<String> = vec![];
+    while names.len() < pool_size {
+        let nm = gen_pkg_name(rng);
+        if !names.contains(&nm) {
+            names.push(nm);
+        }
+    }
+    // a small source pool as well: same source (e.g. same git commit), different names
+    let shared_sources: Vec<MSrc> = (0..2).map(|_| { let k = rng.gen_range(1..5); gen_source(rng, k) }).collect();
+    let mut pkgs: Vec<MPkg> = vec![];
+    for i in 0..n {
+        for attempt in 0..40 {
+            let name = if attempt < 20 { choose(rng, &names).clone() } else { gen_pkg_name(rng) };
+            let kind = if i == 0 { 0 } else { *choose(rng, &[0u32, 1, 1, 2, 2, 2, 3, 4, 4]) };
+            let src = if kind != 0 && rng.gen_bool(0.15) { choose(rng, &shared_sources).clone() } else { gen_source(rng, kind) };
+            // (name, source) pairs are unique in a resolved graph; member names are unique in a workspace
+            let clash = pkgs.iter().any(|p| p.name == name && (p.src == src || (p.src == MSrc::Member && src == MSrc::Member)));
+            if !clash {
+                pkgs.push(MPkg { name, src });
+                break;
+            }
+        }
+    }
+    let n = pkgs.len();
+    // DAG: hidden rank
+    let mut rank: Vec<usize> = (0..n).collect();
+    for i in (1..n).rev() {
+        let j = rng.gen_range(0..=i);
+        rank.swap(i, j);
+    }
+    let p = rng.gen_range(0.1..0.7);
+    let mut edges = vec![];
+    for a in 0..n {
+        for b in (a + 1)..n {
+            if !rng.gen_bool(p) {
+                continue;
+            }
+            let (from, to) = if rank[a] > rank[b] { (a, b) } else { (b, a) };
+            let name = if rng.gen_bool(0.3) { gen_dep_name(rng) } else { pkgs[to].name.clone() };
+            let salt = match rng.gen_range(0..10) {
+                0..=5 => None,
+                6 => Some("00".repeat(32)),
+                _ => Some(gen_salt(rng)),
+            };
+            edges.push(MEdge { from, to, name, salt });
+        }
+    }
+    MGraph { pkgs, edges }
+}
+
+// ------------------------------------------------------------------------------------------
+// Fixed enumerated edge cases (independent of the seed)
+
+fn two_node(dep: MPkg, edge_name: Option<&str>, salt: Option<String>) -> MGraph {
+    let name = edge_name.map(|s| s.to_string()).unwrap_or_else(|| dep.name.clone());
+    MGraph { pkgs: vec![MPkg { name: "root_pkg".into(), src: MSrc::Member }, dep], edges: vec![MEdge { from: 0, to: 1, name, salt }] }
+}
+
+const CID0: &str = "QmdMgjkXU1YtLBcQVd9YVmTdZkYAFDgDD3sTbNMNXfuPYD";
+const COMMIT: &str = "0123456789abcdef0123456789abcdef01234567";
+
+pub fn fixed_cases() -> Vec<(&'static str, MGraph)> {
+    let git = |r: MRef| MSrc::Git { url: "https://github.com/FuelLabs/sway".into(), reference: r, commit: COMMIT.into() };
+    let mut v = vec![];
+    // the four dependency-line shapes of lock.rs' own unit tests, end to end
+    v.push(("baseline-renamed-salted", two_node(MPkg { name: "std".into(), src: MSrc::Path { root: 7 } }, Some("std2"), Some(format!("{:064x}", 255)))));
+    v.push(("baseline-plain", two_node(MPkg { name: "std".into(), src: git(MRef::Tag("v0.66.1".into())) }, None, None)));
+    // a git branch / tag containing '#': allowed by git check-ref-format, accepted by forc
+    v.push(("git-branch-with-hash", two_node(MPkg { name: "dep_lib".into(), src: git(MRef::Branch("fix#123".into())) }, None, None)));
+    v.push(("git-tag-with-hash", two_node(MPkg { name: "dep_lib".into(), src: git(MRef::Tag("v1#rc".into())) }, None, None)));
+    // a git ref containing parentheses (allowed by git) in a dependency line that needs the source for disambiguation
+    v.push((
+        "git-branch-with-parens-disambiguated",
+        MGraph {
+            pkgs: vec![
+                MPkg { name: "root_pkg".into(), src: MSrc::Member },
+                MPkg { name: "dep_lib".into(), src: git(MRef::Branch("fix(parser)".into())) },
+                MPkg { name: "dep_lib".into(), src: git(MRef::Branch("main".into())) },
+            ],
+            edges: vec![MEdge { from: 0, to: 1, name: "dep_lib".into(), salt: None }, MEdge { from: 0, to: 2, name: "dep_main".into(), salt: None }],
+        },
+    ));
+    // the same ref when no disambiguation is needed
+    v.push(("git-branch-with-parens", two_node(MPkg { name: "dep_lib".into(), src: git(MRef::Branch("fix(parser)".into())) }, None, Some(format!("{:064x}", 9)))));
+    // registry entry whose index carries a CIDv1 (reg::Source::pin accepts any CID)
+    v.push((
+        "registry-cid-v1",
+        two_node(MPkg { name: "dep_lib".into(), src: MSrc::Reg { version: "1.0.0".into(), cid: "bafkreigh2akiscaildcqabsyg3dfr6chu3fgpregiymsck7e7aqa4s52zy".into(), namespace: None } }, None, None),
+    ));
+    // `namespace = ""` in the manifest
+    v.push(("registry-empty-domain-namespace", two_node(MPkg { name: "dep_lib".into(), src: MSrc::Reg { version: "1.0.0".into(), cid: CID0.into(), namespace: Some(String::new()) } }, None, None)));
+    // (two packages with the identical (name, source) pair are not a resolved graph: the pinned id
+    // would collide; that shape is deliberately not explored)
+    // same name from all five source kinds at once, every edge renamed and salted
+    v.push((
+        "five-kinds-one-name",
+        MGraph {
+            pkgs: vec![
+                MPkg { name: "same".into(), src: MSrc::Member },
+                MPkg { name: "same".into(), src: MSrc::Path { root: u64::MAX } },
+                MPkg { name: "same".into(), src: git(MRef::Default) },
+                MPkg { name: "same".into(), src: MSrc::Ipfs { cid: CID0.into() } },
+                MPkg { name: "same".into(), src: MSrc::Reg { version: "1.2.3-rc.1+b.7".into(), cid: CID0.into(), namespace: Some("com/fuel".into()) } },
+            ],
+            edges: (1..5).map(|i| MEdge { from: 0, to: i, name: format!("alias{i}"), salt: Some(format!("{:064x}", i)) }).collect(),
+        },
+    ));
+    v
+}
+
+// ------------------------------------------------------------------------------------------
+// The check
+
+pub struct Outcome {
+    /// None = property held on this case
+    pub failure: Option<(String, String)>, // (kind, description)
+}
+
+fn canon_edges(v: &mut Vec<(usize, usize, String, Option<String>)>) {
+    v.sort();
+}
+
+/// A lock file under /verif/work/<Cxx>/ that is rewritten in place for every case (truncating
+/// and re-creating a file costs ~0.4 ms on this file system, rewriting ~10 us).
+pub struct Scratch {
+    pub path: PathBuf,
+    file: std::fs::File,
+}
+
+impl Scratch {
+    pub fn new(dir: &Path) -> Result<Scratch, String> {
+        std::fs::create_dir_all(dir).ok();
+        let path = dir.join("Forc.lock");
+        let file = std::fs::OpenOptions::new().read(true).write(true).create(true).truncate(true).open(&path).map_err(|e| format!("harness: cannot create {}: {e}", path.display()))?;
+        Ok(Scratch { path, file })
+    }
+    pub fn put(&mut self, bytes: &[u8]) -> Result<(), String> {
+        use std::os::unix::fs::FileExt;
+        self.file.write_all_at(bytes, 0).and_then(|_| self.file.set_len(bytes.len() as u64)).map_err(|e| format!("harness: cannot write {}: {e}", self.path.display()))
+    }
+}
+
+/// Write, read back, compare. `scratch` is the lock file that is written.
+/// Err(..) = the model was rejected while constructing the input graph (not a verdict).
+pub fn roundtrip(m: &MGraph, scratch: &mut Scratch) -> Result<Outcome, String> {
+    let (graph, sources) = build_graph(m)?;
+    let fail = |kind: &str, d: String| Ok(Outcome { failure: Some((kind.to_string(), d)) });
+    let text = match catch(std::panic::AssertUnwindSafe(|| lock_text(&graph))) {
+        Err((loc, msg)) => return fail("panic-writing", format!("Lock::from_graph/serialise panicked: {msg} at {loc}")),
+        Ok(Err(e)) => return fail("serialise-error", e),
+        Ok(Ok(t)) => t,
+    };
+    scratch.put(text.as_bytes())?;
+    let path: &Path = &scratch.path;
+    let back = catch(std::panic::AssertUnwindSafe(|| Lock::from_path(path).and_then(|l| l.to_graph())));
+    let out = match back {
+        Err((loc, msg)) => return fail("panic-reading", format!("reading the lock back panicked: {msg} at {loc}; lock text:\n{text}")),
+        Ok(Err(e)) => return fail("read-error", format!("reading the lock back failed: {e}; lock text:\n{text}")),
+        Ok(Ok(g)) => g,
+    };
+    // nodes
+    let n = m.pkgs.len();
+    if out.node_count() != n {
+        return fail("node-count", format!("{} packages written, {} read back; lock text:\n{text}", n, out.node_count()));
+    }
+    let mut matched: Vec<Option<forc_pkg::NodeIx>> = vec![None; n];
+    let mut back_ix = std::collections::HashMap::new();
+    for nix in out.node_indices() {
+        let p = &out[nix];
+        let pos = (0..n).find(|&i| matched[i].is_none() && m.pkgs[i].name == p.name && sources[i] == p.source);
+        match pos {
+            Some(i) => {
+                matched[i] = Some(nix);
+                back_ix.insert(nix, i);
+            }
+            None => {
+                return fail(
+                    &format!("node-mismatch:{}", src_kind_of(&p.source)),
+                    format!("package read back that was not written: name {:?} source {:?} (`{}`); lock text:\n{text}", p.name, p.source, p.source),
+                )
+            }
+        }
+    }
+    // edges
+    use petgraph::visit::{EdgeRef, IntoEdgeReferences};
+    let mut expect: Vec<(usize, usize, String, Option<String>)> = m.edges.iter().map(|e| (e.from, e.to, e.name.clone(), e.salt.as_ref().map(|s| s.to_lowercase()))).collect();
+    let mut got: Vec<(usize, usize, String, Option<String>)> = out
+        .edge_references()
+        .map(|e| {
+            let w = e.weight();
+            let salt = match &w.kind {
+                DepKind::Library => None,
+                DepKind::Contract { salt } => Some(hex::encode(salt.as_ref() as &[u8])),
+            };
+            (back_ix[&e.source()], back_ix[&e.target()], w.name.clone(), salt)
+        })
+        .collect();
+    canon_edges(&mut expect);
+    canon_edges(&mut got);
+    if expect != got {
+        let missing: Vec<_> = expect.iter().filter(|e| !got.contains(e)).take(3).collect();
+        let extra: Vec<_> = got.iter().filter(|e| !expect.contains(e)).take(3).collect();
+        let kind = if expect.len() != got.len() {
+            "edge-count"
+        } else if missing.iter().zip(extra.iter()).all(|(a, b)| a.0 == b.0 && a.1 == b.1 && a.2 == b.2) {
+            "edge-kind-or-salt"
+        } else if missing.iter().zip(extra.iter()).all(|(a, b)| a.0 == b.0 && a.1 == b.1 && a.3 == b.3) {
+            "edge-name"
+        } else {
+            "edge-endpoints"
+        };
+        return fail(kind, format!("dependency edges differ: written-but-not-read {missing:?}, read-but-not-written {extra:?} (from, to, dep name, salt); lock text:\n{text}"));
+    }
+    Ok(Outcome { failure: None })
+}
+
+fn src_kind_of(s: &source::Pinned) -> &'static str {
+    match s {
+        source::Pinned::Member(_) => "member",
+        source::Pinned::Path(_) => "path",
+        source::Pinned::Git(_) => "git",
+        source::Pinned::Ipfs(_) => "ipfs",
+        source::Pinned::Registry(_) => "registry",
+    }
+}
+
+fn observe(m: &MGraph, res: &mut ShardResult) {
+    let mut dup_target = false;
+    for (i, p) in m.pkgs.iter().enumerate() {
+        res.count(&format!("src_{}", p.src.kind()));
+        match &p.src {
+            MSrc::Git { reference, .. } => res.count(match reference {
+                MRef::Branch(_) => "git_ref_branch",
+                MRef::Tag(_) => "git_ref_tag",
+                MRef::Rev => "git_ref_rev",
+                MRef::Default => "git_ref_default",
+            }),
+            MSrc::Ipfs { cid } => res.count(if cid.starts_with("Qm") { "ipfs_cid_v0" } else { "ipfs_cid_v1" }),
+            MSrc::Reg { version, namespace, .. } => {
+                if namespace.is_some() {
+                    res.count("registry_domain_namespace");
+                } else {
+                    res.count("registry_flat_namespace");
+                }
+                if version.contains('-') || version.contains('+') {
+                    res.count("registry_prerelease_or_build");
+                }
+            }
+            _ => {}
+        }
+        let dup = m.pkgs.iter().enumerate().any(|(j, q)| j != i && q.name == p.name);
+        if dup && m.edges.iter().any(|e| e.to == i) {
+            dup_target = true;
+        }
+    }
+    if dup_target {
+        res.count("graphs_disambiguated");
+    }
+    for e in &m.edges {
+        if e.name != m.pkgs[e.to].name {
+            res.count("edges_renamed");
+        }
+        match &e.salt {
+            None => res.count("edges_library"),
+            Some(s) if s.bytes().all(|b| b == b'0') => res.count("edges_contract_zero_salt"),
+            Some(_) => res.count("edges_contract_salted"),
+        }
+    }
+    res.max("max_nodes", m.pkgs.len() as u64);
+    res.max("max_edges", m.edges.len() as u64);
+}
+
+fn check(m: &MGraph, fixed: Option<&str>, scratch: &mut Scratch, res: &mut ShardResult) {
+    res.evaluations += 1;
+    let case = json!({"fixed": fixed, "graph": m});
+    match roundtrip(m, scratch) {
+        Err(why) => {
+            res.count("rejected_inputs");
+            res.inconclusive(format!("input graph rejected while constructing it: {why}"));
+        }
+        Ok(o) => {
+            res.count("graphs");
+            observe(m, res);
+            if m.pkgs.len() >= 2 && !m.edges.is_empty() {
+                res.note_nontrivial(hash64(serde_json::to_string(m).unwrap().as_bytes()));
+            }
+            match o.failure {
+                None => {
+                    res.count("roundtrip_ok");
+                    if m.pkgs.len() >= 3 && m.edges.len() >= 2 {
+                        res.sample(json!({"graph": m}));
+                    }
+                }
+                Some((kind, desc)) => {
+                    let sig = match fixed {
+                        Some(name) => format!("fixed:{name}:{}", kind.split(':').next().unwrap_or(&kind)),
+                        None => format!("roundtrip:{kind}"),
+                    };
+                    res.violation(sig, desc.chars().take(1500).collect::<String>(), case);
+                }
+            }
+        }
+    }
+}
+
+fn shard(ctx: &ShardCtx) -> ShardResult {
+    let mut res = ShardResult::default();
+    let mut scratch = match Scratch::new(&ctx.work()) {
+        Ok(s) => s,
+        Err(e) => {
+            res.harness_fault = Some(e);
+            return res;
+        }
+    };
+    if ctx.shard == 0 {
+        for (name, g) in fixed_cases() {
+            res.count("fixed_cases_run");
+            check(&g, Some(name), &mut scratch, &mut res);
+        }
+    }
+    let mut i = 0u64;
+    while ctx.time_left() {
+        let mut rng = ctx.rng(i);
+        let g = gen_graph(&mut rng);
+        check(&g, None, &mut scratch, &mut res);
+        i += 1;
+    }
+    res
+}
+
+fn replay(case: &Value) -> ShardResult {
+    let mut res = ShardResult::default();
+    let mut scratch = match Scratch::new(&work_dir("C20").join("replay")) {
+        Ok(s) => s,
+        Err(e) => {
+            res.harness_fault = Some(e);
+            return res;
+        }
+    };
+    match serde_json::from_value::<MGraph>(case["graph"].clone()) {
+        Ok(g) => {
+            let fixed = case["fixed"].as_str().map(|s| s.to_string());
+            check(&g, fixed.as_deref(), &mut scratch, &mut res);
+        }
+        Err(e) => res.harness_fault = Some(format!("cannot decode replay case: {e}")),
+    }
+    res
+}
